@@ -143,6 +143,68 @@ pub fn run(thorough: bool, mut rng: Rng, mut out: Out) {
             Err(e) => out.r(&label, false, &format!("panic {}", e)),
         }
     }
+    // (v) whatever the server sends under the ID of an operation that is still WAITING, the ID stays that
+    // operation's: the frame either completes the operation (result, or an error for a frame that is no result)
+    // or leaves it waiting — and while it waits, a counter that comes round to that number must skip it.
+    // Frames: IntermediateResponse (25, RFC-legal for extended operations), entry (4), reference (19), extended
+    // response (24), bind response (1), a malformed result (11 bad), a Done for a non-search (5).
+    for (k, (op, good)) in [(25u64, false), (25, true), (4, false), (19, false), (24, true), (1, true), (11, false), (5, true), (5, false)].iter().enumerate() {
+        for repeats in 1..=2usize {
+            use crate::scen::*;
+            let mut sc = vec![
+                Step::Issue { kind: OpKind::Single, tmo_ms: None },                                  // op 0, id 1
+                Step::Issue { kind: OpKind::Single, tmo_ms: if k % 2 == 0 { None } else { Some(60_000) } }, // op 1, id 2
+                Step::Settle,
+            ];
+            for _ in 0..repeats {
+                sc.push(Step::Send { id: 1, op: *op, good: *good });
+                sc.push(Step::Settle);
+            }
+            sc.push(Step::Table);
+            sc.push(Step::Rewind(1));                                                                // the counter comes round
+            sc.push(Step::Issue { kind: OpKind::Single, tmo_ms: None });                             // op 2
+            sc.push(Step::Issue { kind: OpKind::Search, tmo_ms: None });                             // op 3
+            sc.push(Step::Settle);
+            sc.push(Step::Table);
+            for id in 1..=4 {
+                sc.push(Step::Send { id, op: 11, good: true });
+            }
+            sc.push(Step::Settle);
+            let o = run_script(&sc);
+            let label = format!("ids.waiting-operation-keeps-its-id frame-op={} good={} x{}", op, good, repeats);
+            out.case(&label, true);
+            out.stat("waiting-keeps-id.scenarios");
+            // replay the trace: which operations are outstanding (issued, not done) when a request leaves, and under which IDs
+            let mut opq: Vec<usize> = vec![];
+            let mut id_of: std::collections::HashMap<usize, String> = Default::default();
+            let mut done: std::collections::HashSet<usize> = Default::default();
+            let mut ok = true;
+            let mut why = String::new();
+            for t in &o.trace {
+                let w: Vec<&str> = t.split(' ').collect();
+                match (w[0], w.get(1).copied().unwrap_or("")) {
+                    ("cli", "issue") => opq.push(w[2].parse().unwrap_or(0)),
+                    ("cli", "done") => {
+                        done.insert(w[2].parse().unwrap_or(0));
+                    }
+                    ("drv", "op") => {
+                        if !opq.is_empty() {
+                            let me = opq.remove(0);
+                            for (other, oid) in &id_of {
+                                if !done.contains(other) && oid == w[2] {
+                                    ok = false;
+                                    why = format!("operation {} leaves under ID {} while operation {} is still waiting under it", me, w[2], other);
+                                }
+                            }
+                            id_of.insert(me, w[2].to_string());
+                        }
+                    }
+                    _ => {}
+                }
+            }
+            out.r(&label, ok && o.watchdog_stuck.is_empty(), &format!("{} | {}", why, to_model_events(&o.trace)));
+        }
+    }
     out.finish("the real msgmap positioned at last in {0,1,2,100,N-2,N-1,N} x in-use sets (empty, singletons, dense runs across the wrap point, random) and random positions; multi-thread bursts from 1..6 cloned handles with a server-side uniqueness oracle; non-trivial = non-empty in-use set / at least 2 requests; distinct by FNV of the request line");
 }
 
